@@ -757,7 +757,7 @@ def coq_finfo(fi):
 
 
 def coq_names(names):
-    return "[" + ";".join("(%s,%s)" % (coq_text(n), zlit(v)) for n, v in names) + "]"
+    return "[" + ";".join("en %s %s" % (coq_text(n), zlit(v)) for n, v in names) + "]"
 
 
 def coq_tval(node):
@@ -769,7 +769,7 @@ def coq_tval(node):
     if k == "enum":
         return "(VEnum %s %s %s)" % (coq_ity(node[1]), coq_names(node[2]), zlit(node[3]))
     if k == "struct":
-        return "(VStruct [" + ";".join("(%s,%s)" % (coq_finfo(fi), coq_tval(n)) for fi, n in node[1]) + "])"
+        return "(VStruct [" + ";".join("fld %s %s" % (coq_finfo(fi), coq_tval(n)) for fi, n in node[1]) + "])"
     if k == "array":
         return "(VArray %s [" % ("true" if node[1] else "false") + ";".join(coq_tval(n) for n in node[2]) + "])"
     raise AssertionError(k)
@@ -806,3 +806,51 @@ def coq_path(path):
 
 def cpp_path(path):
     return "".join(".%s()" % x if k == "f" else "[%d]" % x for k, x in path)
+
+
+# ---- shared rendering: field names and enum tables become named definitions ---------------
+def _ident(prefix, text):
+    return prefix + "".join(c if c.isalnum() else "_%02x" % ord(c) for c in text)
+
+
+def coq_tval_shared(node, defs):
+    """Like coq_tval, but every field name and every enum table is a reference to a definition
+    collected in `defs` (name -> (type, term)); string literals are slow to elaborate, so each is
+    written once per file."""
+    k = node[0]
+    if k == "int":
+        return "(VInt %s %s)" % (coq_ity(node[1]), zlit(node[2]))
+    if k == "bool":
+        return "(VBool %s)" % ("true" if node[1] else "false")
+    if k == "enum":
+        en = _ident("en_", "_".join("%s%d" % (n, v) for n, v in node[2]))[:180]
+        if en not in defs:
+            defs[en] = ("list (list Z * Z)", coq_names(node[2]))
+        return "(VEnum %s %s %s)" % (coq_ity(node[1]), en, zlit(node[3]))
+    if k == "struct":
+        parts = []
+        for fi, n in node[1]:
+            nm = _ident("nm_", fi["name"])
+            if nm not in defs:
+                defs[nm] = ("list Z", coq_text(fi["name"]))
+            a = {None: "ANone", "Skip": "ASkip", "Emit": "AEmit"}[fi["attr"]]
+            parts.append("fld (mk_finfo %s %s %s %s %s) %s" % (nm, "true" if fi["present"] else "false", a,
+                                                               "true" if fi["ro"] else "false",
+                                                               "true" if fi["anon"] else "false", coq_tval_shared(n, defs)))
+        return "(VStruct [" + ";".join(parts) + "])"
+    if k == "array":
+        return "(VArray %s [" % ("true" if node[1] else "false") + ";".join(coq_tval_shared(n, defs) for n in node[2]) + "])"
+    raise AssertionError(k)
+
+
+def coq_path_shared(path, defs):
+    out = []
+    for k, x in path:
+        if k == "f":
+            nm = _ident("nm_", x)
+            if nm not in defs:
+                defs[nm] = ("list Z", coq_text(x))
+            out.append("PField %s" % nm)
+        else:
+            out.append("PIndex %d" % x)
+    return "[" + ";".join(out) + "]"
